@@ -5,16 +5,9 @@ from ..common import dec_val, canon
 
 MODULE = "Genql.Properties.C06"
 LEAN_TARGETS = [MODULE]
-THEOREMS = [
-    "Genql.C06.dedup_first_occurrence",
-    "Genql.C06.dedup_nodup",
-    "Genql.C06.dedup_mem_iff",
-    "Genql.C06.dedup_idempotent",
-    "Genql.C06.union_all_append",
-    "Genql.C06.union_dedup",
-    "Genql.C06.union_chain_assoc",
-    "Genql.C06.union_limit_outermost",
-]
+THEOREMS = ["Genql.C06." + t for t in [
+    "dedupLoop_eq_spec", "dedup_first_occurrence", "dedup_sublist", "dedup_nodup", "dedup_mem_iff", "dedup_idempotent",
+    "union_all_append", "union_dedup", "union_chain_assoc", "union_mixed", "union_limit_outermost"]]
 TRUSTED = ["fmt %#v renders JSON-like rows injectively (keys sorted, strings quoted) and SHA-256 is collision free: the Go "
            "fingerprint identifies exactly equal rows; probed with adversarial strings", "sqlparser"]
 RULE = ("tables with controlled duplication (values from 2-3 element pools, adversarial strings such as '1 s:x', nested objects) x "
